@@ -36,6 +36,17 @@ theorem runTask_skeleton :
          "hook:upToDate", "prompt", "hook:promptFail", "hook:promptFail", "mkdir"]
         RunTask = true := by decide
 
+/-- `RunTask`, the status rule (C03; after the fix of `C03-dedup-waiter-status`): inside the
+closure handed to `startExecution` — the one real execution of a possibly deduplicated task,
+whose error every waiter receives — a failing dependency group and a failing command are only
+*marked* (a literal of the package-local marker type); the one `TaskRunError` of `RunTask` is
+built after `startExecution` has returned, i.e. by every caller for itself.  This is what the
+model's `Outcome` / `wrapFor` mirror (`Act.fail`, `Act.stopDeps`, `wWake`). -/
+theorem runTask_wrap_after_execution :
+    chk ["startExecution", "closure{", "}closure", "runDeps", "runCommand", "mark:local", "wrap:TaskRunError"]
+        ["startExecution", "closure{", "runDeps", "mark:local", "runCommand", "mark:local", "}closure", "wrap:TaskRunError"]
+        RunTask = true := by decide
+
 /-- `runDeps`: the slot is given back before the dependency goroutines start and retaken
 (deferred) after `g.Wait`; each dependency is a child activation running `RunTask`. -/
 theorem runDeps_skeleton :
